@@ -9,6 +9,7 @@
 #include <ctype.h>
 #include "qlibc.h"
 #include "vfc.h"
+#include <errno.h>
 
 static rng_t R;
 
@@ -40,10 +41,14 @@ static bool fail(const char *key, const unsigned char *x, size_t n, const char *
 static const char FORBIDDEN[] = "%+&=?#\"<>";
 
 /* all three codecs on one byte string */
+/* every library call is entered with a stale errno value chosen by (input, call site): none of the codecs may depend on it */
+static uint64_t EEH;
+#define EE(site) (errno = vf_entry_errno_for(EEH + (uint64_t)(site) * 0x9E3779B97F4A7C15ULL))
 static void check_string(const unsigned char *x, size_t n) {
     unsigned char *in = vf_xdup(x, n);          /* exact-size heap copy */
+    EEH = vf_hash(x, n, VF_H0 + VF.seed);
     /* --- URL */
-    char *u = qurl_encode(in, n);
+    EE(1); char *u = qurl_encode(in, n);
     if (!u) { fail("url-null", x, n, "qurl_encode returned NULL"); hm_free(in); return; }
     size_t ul = strlen(u), ip = 0; bool ok = true;
     for (size_t i = 0; i < ul && ok; ) {
@@ -63,38 +68,38 @@ static void check_string(const unsigned char *x, size_t n) {
     if (ok && ip != n) ok = fail("url-length", x, n, "encoding covers %zu of %zu input bytes", ip, n);
     if (ok) {
         char *d = vf_xdup(u, ul + 1);
-        size_t dl = qurl_decode(d);
+        EE(2); size_t dl = qurl_decode(d);
         if (dl != n || memcmp(d, x, n)) fail("url-roundtrip", x, n, "decode(encode(x)) has length %zu and/or other bytes", dl);
         hm_free(d);
         /* decoder leniency: upper-case hex digits and '+' for space */
         d = vf_xdup(u, ul + 1); for (size_t i = 0; i < ul; i++) d[i] = (char)toupper((unsigned char)d[i]);
         bool has_alpha = false; for (size_t i = 0; i < n; i++) if (isalpha(x[i])) has_alpha = true;
-        if (!has_alpha) { dl = qurl_decode(d); if (dl != n || memcmp(d, x, n)) fail("url-uppercase-hex", x, n, "upper-case escapes are not decoded to the same bytes"); }
+        if (!has_alpha) { EE(3); dl = qurl_decode(d); if (dl != n || memcmp(d, x, n)) fail("url-uppercase-hex", x, n, "upper-case escapes are not decoded to the same bytes"); }
         hm_free(d);
         /* replace every %20 by '+' */
         d = hm_alloc(ul + 1); size_t o = 0; for (size_t i = 0; i < ul; ) { if (u[i] == '%' && u[i + 1] == '2' && u[i + 2] == '0') { d[o++] = '+'; i += 3; } else d[o++] = u[i++]; } d[o] = 0;
-        dl = qurl_decode(d); if (dl != n || memcmp(d, x, n)) fail("url-plus-for-space", x, n, "'+' is not decoded as a space");
+        EE(4); dl = qurl_decode(d); if (dl != n || memcmp(d, x, n)) fail("url-plus-for-space", x, n, "'+' is not decoded as a space");
         hm_free(d);
     }
     free(u);
     vf_count("url_strings", 1);
     /* --- Base64 */
-    char *b = qbase64_encode(in, n);
+    EE(5); char *b = qbase64_encode(in, n);
     if (!b) { fail("b64-null", x, n, "qbase64_encode returned NULL"); hm_free(in); return; }
     { char *ref = hm_alloc(4 * (n / 3 + 1) + 1); ref_b64(x, n, ref);
       if (strcmp(b, ref)) fail("b64-format", x, n, "qbase64_encode gives %.60s, RFC 4648 gives %.60s", b, ref);
-      else { char *d = vf_xdup(b, strlen(b) + 1); size_t dl = qbase64_decode(d); if (dl != n || memcmp(d, x, n)) fail("b64-roundtrip", x, n, "decode(encode(x)) has length %zu and/or other bytes", dl); hm_free(d); }
+      else { char *d = vf_xdup(b, strlen(b) + 1); EE(6); size_t dl = qbase64_decode(d); if (dl != n || memcmp(d, x, n)) fail("b64-roundtrip", x, n, "decode(encode(x)) has length %zu and/or other bytes", dl); hm_free(d); }
       hm_free(ref); }
     free(b);
     vf_count("base64_strings", 1);
     /* --- hex */
-    char *h = qhex_encode(in, n);
+    EE(7); char *h = qhex_encode(in, n);
     if (!h) { fail("hex-null", x, n, "qhex_encode returned NULL"); hm_free(in); return; }
     bool hok = strlen(h) == 2 * n;
     for (size_t i = 0; i < n && hok; i++) { static const char HX[] = "0123456789abcdef"; if (h[2 * i] != HX[x[i] >> 4] || h[2 * i + 1] != HX[x[i] & 15]) hok = false; }
     if (!hok) fail("hex-format", x, n, "qhex_encode gives %.60s", h);
-    else { char *d = vf_xdup(h, 2 * n + 1); size_t dl = qhex_decode(d); if (dl != n || memcmp(d, x, n)) fail("hex-roundtrip", x, n, "decode(encode(x)) has length %zu and/or other bytes", dl); hm_free(d);
-           d = vf_xdup(h, 2 * n + 1); for (size_t i = 0; i < 2 * n; i++) d[i] = (char)toupper((unsigned char)d[i]); dl = qhex_decode(d); if (dl != n || memcmp(d, x, n)) fail("hex-uppercase", x, n, "upper-case hex digits are not decoded to the same bytes"); hm_free(d); }
+    else { char *d = vf_xdup(h, 2 * n + 1); EE(8); size_t dl = qhex_decode(d); if (dl != n || memcmp(d, x, n)) fail("hex-roundtrip", x, n, "decode(encode(x)) has length %zu and/or other bytes", dl); hm_free(d);
+           d = vf_xdup(h, 2 * n + 1); for (size_t i = 0; i < 2 * n; i++) d[i] = (char)toupper((unsigned char)d[i]); EE(9); dl = qhex_decode(d); if (dl != n || memcmp(d, x, n)) fail("hex-uppercase", x, n, "upper-case hex digits are not decoded to the same bytes"); hm_free(d); }
     free(h);
     vf_count("hex_strings", 1);
     hm_free(in);
@@ -103,6 +108,7 @@ static void check_string(const unsigned char *x, size_t n) {
 
 /* ---- query strings ---------------------------------------------------------------------------- */
 static void check_query(long caseno) {
+    EEH = (uint64_t)caseno * 0xC2B2AE3D27D4EB4FULL + VF.seed;
     int np = (int)rng_below(&R, 13);
     /* '=' only: the URL encoder leaves ':' literal, so ':' as name/value separator is outside what URL-encoding protects */
     static const char SEPS[] = "&;";
@@ -113,7 +119,7 @@ static void check_query(long caseno) {
         if (nl == 0 && vl == 0) nl = 1;                       /* an entirely empty pair would be an empty element */
         for (size_t k = 0; k < nl; k++) names[i][k] = (char)(1 + rng_below(&R, 255)); names[i][nl] = 0;
         for (size_t k = 0; k < vl; k++) vals[i][k] = (char)(1 + rng_below(&R, 255)); vals[i][vl] = 0;
-        char *en = qurl_encode(names[i], nl), *ev = qurl_encode(vals[i], vl);
+        char *en, *ev; EE(10 + i); en = qurl_encode(names[i], nl); EE(30 + i); ev = qurl_encode(vals[i], vl);
         size_t need = ql + strlen(en) + strlen(ev) + 4; if (need > cap) { cap = need * 2; q = vf_xrealloc(q, cap); }
         ql += (size_t)sprintf(q + ql, "%s%s%c%s", i ? (char[]){sep, 0} : "", en, eq, ev);
         free(en); free(ev);
@@ -121,7 +127,7 @@ static void check_query(long caseno) {
     char *qx = vf_xdup(q, ql + 1);
     vf_case_begin(caseno, "query round trip: %d pairs sep='%c' eq='%c' query=%.200s", np, sep, eq, q);
     int cnt = -1;
-    qlisttbl_t *t = qparse_queries(NULL, qx, eq, sep, &cnt);
+    EE(50); qlisttbl_t *t = qparse_queries(NULL, qx, eq, sep, &cnt);
     if (!t) { vf_viol("C16", "query-null", "qparse_queries returned NULL"); hm_free(q); hm_free(qx); return; }
     if (cnt != np || t->size(t) != (size_t)np) vf_viol("C16", "query-count", "parsed %d pairs (size %zu), %d were assembled", cnt, t->size(t), np);
     else { int i = 0; for (qlisttbl_obj_t *o = t->first; o; o = o->next, i++)
@@ -129,7 +135,7 @@ static void check_query(long caseno) {
     if (strcmp(q, qx)) vf_viol("C16", "query-input-modified", "qparse_queries modified the caller's query string");
     /* second call into the same (caller-supplied, now non-empty) table, and without the optional counter: the count is that of this call, the pairs are appended in order */
     if (t->lookupforward == false && t->inserttop == false) {
-        int cnt2 = -1; qlisttbl_t *t2 = qparse_queries(t, qx, eq, sep, (caseno & 1) ? &cnt2 : NULL);
+        int cnt2 = -1; EE(51); qlisttbl_t *t2 = qparse_queries(t, qx, eq, sep, (caseno & 1) ? &cnt2 : NULL);
         if (t2 != t) vf_viol("C16", "query-table", "qparse_queries did not return the table it was given");
         else if (((caseno & 1) && cnt2 != np) || t->size(t) != (size_t)(2 * np)) vf_viol("C16", "query-count-second-call", "second call reported %d pairs (table size %zu), the query holds %d and the table held %d", cnt2, t->size(t), np, np);
         else { int i = 0; for (qlisttbl_obj_t *o = t->first; o; o = o->next, i++) if (strcmp(o->name, names[i % np]) || strcmp(o->data, vals[i % np])) { vf_viol("C16", "query-pair", "after a second call entry %d is (%s,%s)", i, vf_hex(o->name, strlen(o->name)), vf_hex(o->data, o->size)); break; } }
